@@ -303,12 +303,14 @@ func evaluateNoUnionInstanceMethod(
 	}
 
 	if methodT.IsDestructive {
+		// the receiver gets a value of its own: it must not share the configured
+		// method's entry, which later assignments to the receiver would rewrite
 		base.SetValueT(
 			m.ctx.GetFrame(),
 			m.ctx.GetClass(),
 			m.ctx.GetMethod(),
 			m.objectT.ToString(),
-			returnT,
+			returnT.DeepCopy(),
 			m.ctx.IsDefineStatic,
 		)
 	}
